@@ -18,11 +18,8 @@ import (
 //	* branch length: follow an exponential distribution with param lambda=1/0.1
 func RandomUniformBinaryTree(nbtips int, rooted bool) (*Tree, error) {
 	t := NewTree()
-	if nbtips < 2 {
-		return nil, errors.New("Cannot create an unrooted random binary tree with less than 2 tips")
-	}
-	if nbtips < 3 && rooted {
-		return nil, errors.New("Cannot create a rooted random binary tree with less than 3 tips")
+	if nbtips < 3 {
+		return nil, errors.New("Cannot create a random binary tree with less than 3 tips")
 	}
 	lambda := 1.0 / 0.1
 	edges := make([]*Edge, 0, 2000)
@@ -126,11 +123,8 @@ func randomBalancedBinaryTreeRecur(t *Tree, node *Node, curdepth int, targetdept
 //	* branch lengths: follow an exponential distribution with param lambda=1/0.1
 func RandomYuleBinaryTree(nbtips int, rooted bool) (*Tree, error) {
 	t := NewTree()
-	if nbtips < 2 {
-		return nil, errors.New("Cannot create an unrooted random binary tree with less than 2 tips")
-	}
-	if nbtips < 3 && rooted {
-		return nil, errors.New("Cannot create a rooted random binary tree with less than 3 tips")
+	if nbtips < 3 {
+		return nil, errors.New("Cannot create a random binary tree with less than 3 tips")
 	}
 	lambda := 1.0 / 0.1
 	edges := make([]*Edge, 0, 2000)
@@ -190,11 +184,8 @@ func RandomYuleBinaryTree(nbtips int, rooted bool) (*Tree, error) {
 //	* branch length: follows an exponential distribution with param lambda=1/0.1
 func RandomCaterpillarBinaryTree(nbtips int, rooted bool) (*Tree, error) {
 	t := NewTree()
-	if nbtips < 2 {
-		return nil, errors.New("Cannot create an unrooted random binary tree with less than 2 tips")
-	}
-	if nbtips < 3 && rooted {
-		return nil, errors.New("Cannot create a rooted random binary tree with less than 3 tips")
+	if nbtips < 3 {
+		return nil, errors.New("Cannot create a random binary tree with less than 3 tips")
 	}
 
 	var lasttip *Node = nil
